@@ -151,16 +151,22 @@ type c03Config struct {
 	mu, mpsf string
 	// stale: what the replica set's stored status.desired says relative to the nodes of this sync (0 = consistent)
 	stale int
+	// migration: the object declares a migration from DaemonSet "old" whose selector (app=agent) also matches the
+	// ExtendedDaemonSet's own pods (same template labels, the usual case); the old pods are owned by that DaemonSet
+	migration bool
 }
 
 func c03Configs() []c03Config {
 	var out []c03Config
 	for _, mu := range []string{"0", "1", "2", "3", "25%", "50%", "100%"} {
 		for _, mf := range []string{"0", "1", "50%"} {
-			out = append(out, c03Config{mu, mf, 0})
+			out = append(out, c03Config{mu: mu, mpsf: mf})
+			if mf == "0" && (mu == "1" || mu == "50%") {
+				out = append(out, c03Config{mu: mu, mpsf: mf, migration: true})
+			}
 			if strings.HasSuffix(mu, "%") && mf == "0" {
 				// the stored status may describe a larger or an empty cluster (nodes left / first sync)
-				out = append(out, c03Config{mu, mf, 3}, c03Config{mu, mf, -100})
+				out = append(out, c03Config{mu: mu, mpsf: mf, stale: 3}, c03Config{mu: mu, mpsf: mf, stale: -100})
 			}
 		}
 	}
@@ -245,9 +251,21 @@ func c03TwinOne(t *testing.T, run *h.Run, seq []int, cfg c03Config) {
 			node := fmt.Sprintf("n%d", i+1)
 			objs = append(objs, w.MkNode(node, nil))
 			if p := c03Pod(c, "ns", rs.Name, "foo", node, hash, now); p != nil {
+				if cfg.migration {
+					p.Labels["app"] = "agent"
+					if c == cOldDSAvail {
+						tr := true
+						p.Labels = map[string]string{"app": "agent"}
+						p.OwnerReferences = []metav1.OwnerReference{{APIVersion: "apps/v1", Kind: "DaemonSet", Name: "old", Controller: &tr}}
+					}
+				}
 				objs = append(objs, p)
 				podName[p.Name] = i
 			}
+		}
+		if cfg.migration {
+			eds.Annotations = map[string]string{v1.ExtendedDaemonSetOldDaemonsetAnnotationKey: "old"}
+			objs = append(objs, oldDS("ns", "old", map[string]string{"app": "agent"}))
 		}
 		st := w.NewState(0, objs...)
 		l := w.NewLive(st, w.Config{})
@@ -272,7 +290,7 @@ func c03TwinOne(t *testing.T, run *h.Run, seq []int, cfg c03Config) {
 		mf := resolveStr(cfg.mpsf, len(seq))
 		if sig, msg := c03Oracle(seq, deleted, mu, mf); sig != "" {
 			run.Violate(h.Violation{Signature: sig, Monitor: "C03/twin", Message: msg, Rank: int64(len(seq)),
-				Replay: map[string]interface{}{"level": "reconcile", "classes": c03Names(seq), "maxUnavailable": cfg.mu, "maxPodSchedulerFailure": cfg.mpsf, "stored_status_desired_offset": cfg.stale, "deleted": deleted}})
+				Replay: map[string]interface{}{"level": "reconcile", "classes": c03Names(seq), "maxUnavailable": cfg.mu, "maxPodSchedulerFailure": cfg.mpsf, "stored_status_desired_offset": cfg.stale, "migration_overlapping_selector": cfg.migration, "deleted": deleted}})
 		}
 		if nd > 0 {
 			run.Nontrivial(fmt.Sprintf("twin:n=%d del=%d mu=%s", len(seq), nd, cfg.mu))
